@@ -129,6 +129,21 @@ def do_solve(st, op, radial_solver):
                 upper = upper + (upper[-1] * 1.1,)
         elif kind == 'upper_radius_list':
             upper = list(upper)
+        elif kind in ('empty_interior_layer', 'upper_radius_not_increasing', 'first_upper_radius_zero'):
+            # a layer structure whose tuples are consistent in length but describe a degenerate stack
+            k = mangle['which'] % len(upper)
+            if kind == 'empty_interior_layer':
+                # one more layer that owns no radial slice at all: its upper radius repeats the one below
+                upper = upper[:k + 1] + (upper[k],) + upper[k + 1:]
+                layer_types = layer_types[:k + 1] + (layer_types[k],) + layer_types[k + 1:]
+                is_static = is_static[:k + 1] + (is_static[k],) + is_static[k + 1:]
+                is_incomp = is_incomp[:k + 1] + (is_incomp[k],) + is_incomp[k + 1:]
+            elif kind == 'upper_radius_not_increasing' and len(upper) >= 2:
+                lst = list(upper)
+                lst[0], lst[1] = lst[1], lst[0]
+                upper = tuple(lst)
+            else:
+                upper = (0.0,) + tuple(upper[1:]) if len(upper) > 1 else upper
     if 'solve_for' in o and o['solve_for'] is not None and not o.pop('solve_for_as_list', False):
         o['solve_for'] = tuple(o['solve_for'])
     o.pop('solve_for_as_list', None)
